@@ -35,8 +35,14 @@ constexpr auto cosh_compute(T const x) noexcept -> T
                   // indistinguishable from zero
             etl::numeric_limits<T>::epsilon() > abs(x) ? T(1)
                                                        :
-                                                       // else
-            (exp(x) + exp(-x)) / T(2)
+                                                       // within one binade of the overflow threshold of exp:
+                                                       // exp(|x|) may overflow although exp(|x|) / 2 is
+                                                       // representable: cosh(x) = (exp(|x| / 2) / 2) * exp(|x| / 2)
+            abs(x) > T(etl::numeric_limits<T>::max_exponent - 1) * T(GCEM_LOG_2)
+                ? (exp(abs(x) / T(2)) / T(2)) * exp(abs(x) / T(2))
+                :
+                // else
+                (exp(x) + exp(-x)) / T(2)
     );
 }
 
